@@ -351,7 +351,9 @@ func (rb *Buffer) ReadFrom(r io.Reader) (n int64, err error) {
 			if m < 0 {
 				panic("RingBuffer.ReadFrom: reader returned negative count from Read")
 			}
-			rb.isEmpty = false
+			if m > 0 {
+				rb.isEmpty = false
+			}
 			rb.w = (rb.w + m) % rb.size
 			n += int64(m)
 			if err == io.EOF {
@@ -359,6 +361,10 @@ func (rb *Buffer) ReadFrom(r io.Reader) (n int64, err error) {
 			}
 			if err != nil {
 				return
+			}
+			if rb.w != 0 {
+				// the reader stopped short of the end of the buffer, go on from there
+				continue
 			}
 			m, err = r.Read(rb.buf[:rb.r])
 			if m < 0 {
@@ -377,7 +383,9 @@ func (rb *Buffer) ReadFrom(r io.Reader) (n int64, err error) {
 			if m < 0 {
 				panic("RingBuffer.ReadFrom: reader returned negative count from Read")
 			}
-			rb.isEmpty = false
+			if m > 0 {
+				rb.isEmpty = false
+			}
 			rb.w = (rb.w + m) % rb.size
 			n += int64(m)
 			if err == io.EOF {
